@@ -20,7 +20,7 @@ RULE = ("cases = groups of independent ops, each op one complete connection: `re
         "valid requests (no body, Content-Length, chunked, keep-alive pairs, HTTP/1.0, OPTIONS first) cut at EVERY byte "
         "position through srv/req/tcp for the dispatch clause; every percent escape %00-%ff in both letter cases; query strings with "
         "escaped & = + inside keys and values; Content-Length that is not a length / together with chunked, each followed by a "
-        "pipelined request; `fmap` = GET of every short token path on the file-server fixture (status and length); non-trivial = distinct case with a non-empty stream")
+        "pipelined request; folded header lines, Content-Length with leading zeros, Transfer-Encoding spellings; `fmap` = GET of every short token path on the file-server fixture (status and length); non-trivial = distinct case with a non-empty stream")
 
 TRUSTED = ["tools/props/c09.py _frame(): lenient RFC 7230 framing parser used by the dispatch clause (no opinion where framing is a matter of interpretation: NUL in the head, folded or duplicate Content-Length/Transfer-Encoding, non-decimal lengths, chunk extensions/trailers)",
            "harness/c09.cpp watchdog (12 s kill) and SLOW flag (>5 s wall or >1.5 s CPU per connection) for the 'terminates promptly' clause",
@@ -68,9 +68,11 @@ LEVEL_TEXT = ("Proved in Lean 4 about the model that the driver runs, for ALL by
 LEVEL_NOTE = ("Trusted: Lean kernel, harness + watchdog, the python framing parser, libc/OS as listed in assumptions. The query theorems "
               "import C15's model/proofs (AslModel.Codec incl. the regenerated Gen/TablesGen, AslProofs.Query*). Not modelled and not "
               "exercised: the Upgrade: websocket hand-off in HttpServer::serve (HttpServer.cpp ~60-65, _wsserver is never linked in the "
-              "harness; belongs to C11), CORS headers, socket timeouts/select and partial arrival (EOF only). Transfer-Encoding values "
-              "other than exactly `chunked` (e.g. `Chunked`, `gzip, chunked`) are treated by the code as not chunked; model and oracle "
-              "follow the code there. The chunk-terminating CRLF is not checked by the code (ChunkedWire says `two bytes`). "
+              "harness; belongs to C11), CORS headers, socket timeouts/select and partial arrival (EOF only). Transfer-Encoding is chunked when its last "
+              "coding is `chunked`, ASCII case-insensitively (fix 7dcf721; String::toLowerCase is UTF-8 aware, the model ASCII: values "
+              "with bytes >= 0x80 are not generated); gzip/deflate codings are not decoded. Folded header lines are joined to the "
+              "field value with one space (350c8ee) and received empty values are kept (988a64d); query tokens without `=` are "
+              "dropped by Url::parseQuery by design (outside_findings.txt). The chunk-terminating CRLF is not checked by the code (ChunkedWire says `two bytes`). "
               "Range/If-Modified-Since handling of the file server is covered by the safety oracle of the `file` op only (no byte "
               "from outside the root, legal status codes, ASan); plain GET mapping is model-checked by `fmap`. Partial: the header "
               "hypotheses of the faithful-read theorems are stated on hdrDic (the fold), the sorted-map lemma `other keys unaffected` "
@@ -265,7 +267,7 @@ def ascii_conn_ok(s):
     in_conn = False
     for line in s.split(b"\n"):
         if not (line[:1] in (b" ", b"\t", b"\r", b"\x0b", b"\x0c")):
-            in_conn = b"connection" in line.lower()
+            in_conn = b"connection" in line.lower() or b"transfer-encoding" in line.lower()
         if in_conn and any(c >= 0x80 for c in line):
             return False
     return True
@@ -417,6 +419,33 @@ def gen(rng, tier):
             c.append("req " + hexs(x))
             st["srv_streams"] += 1
             st["req_mutated"] += 1
+    cases.append(c)
+
+    # --- folded header lines (obs-fold), Content-Length written with leading zeros, Transfer-Encoding spellings
+    c = []
+    nxt = b"GET /y HTTP/1.1\r\nHost: h\r\n\r\n"
+    folds = [b"X: a\r\n b\r\n c\r\n", b"X: a\r\n b\r\n", b"X: a\r\n\tb\r\n \t c d \r\n", b"X: a\r\n \r\n b\r\n", b"X:\r\n a\r\n", b"X: \r\n \r\n",
+             b"X: a\r\n b\r\nY: c\r\n d\r\n e\r\n", b"Content-Length: 1\r\n 0\r\n", b"Accept: text/html,\r\n  application/json\r\nHost: h\r\n",
+             b" lead\r\nX: a\r\n", b"Connection: keep-\r\n alive\r\n", b"X-Empty:\r\nY: 1\r\n", b"X-Empty: \r\n"]
+    for f in folds:
+        x = b"GET /x HTTP/1.1\r\n" + f + b"\r\n"
+        c.append("req " + hexs(x))
+        c.append("srv " + hexs(x + nxt))
+        st["req_mutated"] += 1
+        st["srv_streams"] += 1
+    for cl in [b"00", b"000", b"0000000000", b"05", b"0000000005", b"005"]:
+        x = b"POST /x HTTP/1.1\r\nContent-Length: " + cl + b"\r\n\r\n" + (b"hello" if int(cl) else b"") + nxt
+        c.append("req " + hexs(x))
+        c.append("srv " + hexs(x))
+        st["req_wellformed"] += 1
+        st["srv_streams"] += 1
+    for te in [b"Chunked", b"CHUNKED", b"chunkeD", b"gzip, chunked", b"gzip,chunked", b"gzip , Chunked ", b"chunked, gzip", b"chunked,", b",chunked", b"x-chunked",
+               b"chunked chunked", b"identity", b"chunked;q=1", b"\tchunked"]:
+        x = b"POST /x HTTP/1.1\r\nTransfer-Encoding: " + te + b"\r\n\r\n5\r\nhello\r\n0\r\n\r\n" + nxt
+        c.append("req " + hexs(x))
+        c.append("srv " + hexs(x))
+        st["req_mutated"] += 1
+        st["srv_streams"] += 1
     cases.append(c)
 
     # --- chunked bodies with odd chunk-size lines
@@ -711,11 +740,24 @@ def _ref_request(s):
         n = _capital(hm.group(1))
         if n in hs or n in (b"Expect", b"Upgrade"):
             return None
-        hs[n] = hm.group(2)
+        v = hm.group(2)
         pos += hm.end()
+        # obs-fold (RFC 7230 3.2.4): continuation lines belong to the value, each joined with one space
+        while True:
+            fm = re.match(rb"[ \t]+([!-~\x80-\xff](?:[ -~\x80-\xff]*[!-~\x80-\xff])?)\r\n", s[pos:])
+            if not fm:
+                break
+            v += b" " + fm.group(1)
+            pos += fm.end()
+        hs[n] = v
     body = b""
-    if b"Transfer-Encoding" in hs:
-        if hs[b"Transfer-Encoding"] != b"chunked" or b"Content-Length" in hs:
+    te = hs.get(b"Transfer-Encoding")
+    if te is not None and any(c >= 0x80 for c in te):
+        return None
+    if te is not None and te.lower().split(b",")[-1].strip(b" \t") != b"chunked":
+        te = None          # the last coding is not chunked: Content-Length (or nothing) frames the body
+    if te is not None:
+        if b"Content-Length" in hs and not re.match(rb"^[0-9]{1,9}\Z", hs[b"Content-Length"]):
             return None
         while True:
             cm = re.match(rb"([0-9a-f]{1,6})\r\n", s[pos:])
@@ -733,7 +775,7 @@ def _ref_request(s):
             body += s[pos:pos + n]
             pos += n + 2
     elif b"Content-Length" in hs:
-        if not re.match(rb"^(0|[1-9][0-9]{0,6})\Z", hs[b"Content-Length"]):
+        if not re.match(rb"^[0-9]{1,9}\Z", hs[b"Content-Length"]):
             return None
         n = int(hs[b"Content-Length"])
         if len(s) < pos + n:
@@ -761,7 +803,7 @@ def _ref_request(s):
         ",".join(hexs(x) for x in parts) if parts else "none",
         ";".join("%s:%s" % (hexs(k), adler_rep(hs[k])) for k in sorted(hs)) if hs else "-",
         adler_rep(body), qd)
-    return rec, pos
+    return rec, pos, hs
 
 
 def _ref_serve(s):
@@ -775,13 +817,12 @@ def _ref_serve(s):
         r = _ref_request(s[pos:])
         if r is None:
             return None
-        rec, used = r
+        rec, used, hs = r
         m = re.match(rb"^(\S+) \S+ (HTTP/1\.[01])\r\n", s[pos:])
         method, proto = m.group(1), m.group(2)
         if method == b"OPTIONS" or " p=0:- " in rec:
             return None
-        hm = re.search(rb"(?im)^connection: ([^\r\n]*)\r$", s[pos:pos + used].split(b"\r\n\r\n")[0] + b"\r")
-        hconn = hm.group(1) if hm else b""
+        hconn = hs.get(b"Connection", b"")     # the field value with its folded continuation lines
         if any(c >= 0x80 for c in hconn):
             return None
         hconn = hconn.lower()
@@ -818,7 +859,7 @@ def reference(line):
             r = _ref_request(s)
             if r is None:
                 return None
-            rec, pos = r
+            rec, pos, _hs = r
             return "%s | err=0 closed=0 out=0:- rest=%d" % (rec, len(s) - pos)
         if t[0] == "tg" and len(t) == 2:
             raw = unhex(t[1])
@@ -875,7 +916,6 @@ def _frame(s):
     method, target, proto = line[:sp1], line[sp1 + 1:sp2], line[sp2 + 1:].strip(b" \t\r\n")
     pos = i + 1
     fields = []
-    folded = False
     while True:
         j = s.find(b"\n", pos)
         if j < 0:
@@ -889,7 +929,13 @@ def _frame(s):
         if b"\x00" in l:
             return None
         if l[:1] in _WS0:
-            folded = True
+            # obs-fold: the line continues the previous field, joined with one space (RFC 7230 3.2.4)
+            if not fields:
+                return None
+            more = l.strip(b" \t\r\n")
+            if more:
+                n0, v0 = fields[-1]
+                fields[-1] = (n0, (v0 + b" " + more) if v0 else more)
             continue
         t = l.strip(b" \t\r\n")
         c = t.find(b":")
@@ -897,12 +943,16 @@ def _frame(s):
             return "incomplete"      # a line that is neither a field nor the empty line: the block is not complete
         fields.append((t[:c], t[c + 1:].strip(b" \t\r\n")))
     names = [_capital(n) for n, _ in fields]
-    simple = not folded and len(set(names)) == len(names) and all(v for _, v in fields)
+    simple = len(set(names)) == len(names)
     hd = dict(zip(names, (v for _, v in fields)))
     if not simple and (b"Content-Length" in names or b"Transfer-Encoding" in names):
-        return None              # which value wins / what a folded line is appended to decides the framing
+        return None              # which of several values wins decides the framing: not for this oracle
     cl = hd.get(b"Content-Length")
-    chunked = hd.get(b"Transfer-Encoding") == b"chunked"
+    te = hd.get(b"Transfer-Encoding")
+    if te is not None and any(c >= 0x80 for c in te):
+        return None
+    # transfer-coding names are case-insensitive; the body is chunked when the last coding is chunked (RFC 7230 3.3.1)
+    chunked = te is not None and te.lower().split(b",")[-1].strip(b" \t\r\n") == b"chunked"
     body = b""
     if cl is not None and not (re.fullmatch(rb"[0-9]{1,10}", cl) and int(cl) < 2 ** 31):
         # a sign, other characters, or more than fits a length: the framing is unknown, nothing may be dispatched
@@ -1087,6 +1137,21 @@ PREDICATES = [(" dd=1", "the decoded request path handed to the application cont
               ("negative-length", "a string/array of negative length was produced")]
 
 
+REF_CLAUSE = "a well-formed request/target/URL was not handed over as sent (independent reference disagrees)"
+
+
+def _judge(line, out):
+    """the property judged on one op line and the implementation's output alone: the dispatch clause, then the
+    strict reference for well-formed input; None = no violation"""
+    c = dispatch_clause(line, out)
+    if c:
+        return c
+    exp = reference(line)
+    if exp is not None and exp != out:
+        return REF_CLAUSE
+    return None
+
+
 def _shrink_stream(exe, line, clause, budget=160):
     """byte-level ddmin of one op line, keeping the same violated clause (judged on the implementation alone)"""
     from lib import core
@@ -1098,7 +1163,7 @@ def _shrink_stream(exe, line, clause, budget=160):
     def bad(c):
         l = op + " " + hexs(c)
         impl, crash, err = core.run_impl(exe, [l], timeout=60)
-        return bool(impl) and dispatch_clause(l, impl[0]) == clause, (impl[0] if impl else "")
+        return bool(impl) and _judge(l, impl[0]) == clause, (impl[0] if impl else "")
     best_out = None
     n = 2
     trials = 0
@@ -1152,7 +1217,7 @@ def _dispatch_search(exe, seed, tier, all_predicates=False):
     if key in _SEARCH:
         return _SEARCH[key]
     rng = random.Random(seed * 1000003 + int(ID[1:]))
-    ops = ("req", "tg", "srv", "tcp", "file") if all_predicates else ("req", "srv", "tcp")
+    ops = ("req", "tg", "srv", "tcp", "file", "fmap", "dec", "url") if all_predicates else ("req", "srv", "tcp")
     lines = [l for c in corpus_cases(ID) + gen(rng, tier) for l in c if l.split()[0] in ops]
     nb = max(1, min(core.NCPU, len(lines) // 1000 or 1))
     size = (len(lines) + nb - 1) // nb
@@ -1164,7 +1229,7 @@ def _dispatch_search(exe, seed, tier, all_predicates=False):
         impl, crash, err = core.run_impl(exe, ch, timeout=900)
         out = []
         for l, o in zip(ch, impl):
-            c = dispatch_clause(l, o)
+            c = _judge(l, o)
             if c is None and all_predicates:
                 for pat, clause in PREDICATES:
                     if pat in o:
@@ -1186,7 +1251,7 @@ def _dispatch_search(exe, seed, tier, all_predicates=False):
         if clause in seen:
             continue
         seen.add(clause)
-        if clause == INCOMPLETE_CLAUSE or clause.startswith(MISMATCH_CLAUSE[:40]):
+        if clause == INCOMPLETE_CLAUSE or clause.startswith(MISMATCH_CLAUSE[:40]) or clause == REF_CLAUSE:
             l2, o2 = _shrink_stream(exe, l, clause)
             if o2 is not None:
                 l, o = l2, o2
